@@ -234,6 +234,7 @@ def run(ctx) -> None:
     fn = eng.func("Engine.restart")
     discover_roles(fn)
     check_hook_contained(ctx, eng, fn)
+    check_maximum_read_verbatim(ctx, eng)
     ctx.analysed(fn)
     cfg = CFG(fn)
     ctx.paths += cfg.paths_count()
@@ -770,6 +771,28 @@ def run(ctx) -> None:
         ok = bool(fin) and c5.exit.id not in r
         ctx.ob("C12.R7-refusal-final-state", tn.ast, ok, "a refused restart gives the component its final state" if ok else
                "a refused restart leaves the component without a final state")
+
+
+def check_maximum_read_verbatim(ctx, eng) -> None:
+    """The configured maximum is compared as it was given: 0 means 'cannot restart at all'.  A read that coalesces falsy values
+    (`get('maxRestarts') or -1`, `x if x else None`) turns an explicit 0 into 'no limit'."""
+    n = 0
+    for q in ("Engine.restart", "RepeatingEngine.restart"):
+        f = eng.functions.get(q)
+        if f is None:
+            continue
+        for a_ in [x for x in source.walk_own(f) if isinstance(x, ast.Assign)]:
+            if not (any(isinstance(c, ast.Constant) and c.value == "maxRestarts" for c in ast.walk(a_.value)) and "workflowAttributes" in source.src(a_.value)):
+                continue
+            n += 1
+            v = a_.value
+            coalesced = isinstance(v, ast.BoolOp) or (isinstance(v, ast.IfExp) and not isinstance(v.test, ast.Compare))
+            ctx.ob("C12.R1-budget-dominates-launch", a_, not coalesced,
+                   "%s reads the maximum as it was given" % q if not coalesced else
+                   "%s reads the maximum through a truthiness default (%s): an explicit 'maxRestarts: 0' - the component may not be restarted at all - becomes "
+                   "'no limit', and a task that exits with a restartable reason is started again" % (q, short(v, 60)),
+                   construct="%s: the maximum is read verbatim" % q)
+    ctx.floor("C12.R1-budget-dominates-launch", n, 2, "reads of workflowAttributes.maxRestarts in the two restart functions")
 
 
 def check_hook_contained(ctx, eng, fn) -> None:
